@@ -64,6 +64,9 @@ def run(ctx):
     n += C08.radius_rule(ctx, 'R02.12')
     n += geomlib.iou_rule(ctx, 'R02.12')
     ctx.floor('R02.12', n, 14)
+    import misclib
+    ctx.rule('R02.15', 'assignment weights are 64-bit fixed point')
+    ctx.floor('R02.15', misclib.rule_weights_fit(ctx, 'R02.15'), 2)
     from props import C09
     ctx.rule('R02.14', 'the assignment is sized by the real number of stored tracks and judges expiry on the epoch of this '
                        'call: shard_stats reports len() of every shard under a blocking lock; predict advances the scene '
